@@ -109,6 +109,10 @@ func (share *Share) Verify(ec elliptic.Curve, threshold int, vs Vs) bool {
 			return false
 		}
 	}
+	// share*G must not be the point at infinity, which ECPoint cannot represent (ScalarBaseMult would panic)
+	if new(big.Int).Mod(share.Share, ec.Params().N).Sign() == 0 {
+		return false
+	}
 	sigmaGi := crypto.ScalarBaseMult(ec, share.Share)
 	return sigmaGi.Equals(v)
 }
